@@ -157,10 +157,12 @@ func CreateAggregateFunctionMerger(aggregateFunc *ast.AggregateFuncExpr, fieldIn
 	case "count":
 		ret := new(AggregateFuncCountMerger)
 		ret.fieldIndex = fieldIndex
+		ret.distinct = aggregateFunc.Distinct
 		return ret, nil
 	case "sum":
 		ret := new(AggregateFuncSumMerger)
 		ret.fieldIndex = fieldIndex
+		ret.distinct = aggregateFunc.Distinct
 		return ret, nil
 	case "max":
 		ret := new(AggregateFuncMaxMerger)
@@ -200,6 +202,11 @@ func (a *AggregateFuncCountMerger) MergeTo(from, to ResultRow) error {
 	if err != nil {
 		return fmt.Errorf("get to int value error: %v", err)
 	}
+	// the distinct values counted on two shards may overlap, so two non-zero
+	// partial counts cannot be combined without the values themselves
+	if a.distinct && valueToMerge != 0 && originValue != 0 {
+		return fmt.Errorf("COUNT(DISTINCT) over rows of several shards is not supported")
+	}
 	to.SetValue(idx, originValue+valueToMerge)
 	return nil
 }
@@ -226,6 +233,12 @@ func (a *AggregateFuncSumMerger) MergeTo(from, to ResultRow) error {
 	if toValue == nil {
 		to.SetValue(idx, fromValue)
 		return nil
+	}
+
+	// the distinct values summed on two shards may overlap, so two non-NULL
+	// partial sums cannot be combined without the values themselves
+	if a.distinct {
+		return fmt.Errorf("SUM(DISTINCT) over rows of several shards is not supported")
 	}
 
 	// TODO: Type mismatch handling .If from is int64, but to is float64), these types might not match directly in the switch, resulting in an error.
